@@ -95,4 +95,39 @@ class C02(Prop):
         return v
 
 
+    def extra(self, ctx):
+        """Enumerated part: every past operator x every interval [a,b], 0<=a<=b<=4 (and unbounded), over a bare
+        variable and a predicate, traces of 1..8 samples; thorough: every outer x inner pair as well."""
+        rng = ctx.rng
+        x, y = lang.V('x'), lang.V('y')
+        px, py = lang.N('geq', x, lang.C(1.0)), lang.N('leq', y, lang.C(0.5))
+        ivls = [None] + [(a, b) for a in range(5) for b in range(a, 5)]
+        forms = []
+        for o in ('once', 'historically'):
+            for iv in ivls:
+                forms += [lang.N(o, x, ivl=iv), lang.N(o, px, ivl=iv)]
+        for iv in ivls:
+            forms += [lang.N('since', px, py, ivl=iv), lang.N('since', x, y, ivl=iv)]
+        plain = ['prev', 's_prev', 'rise', 'fall']
+        forms += [lang.N(o, g) for o in plain for g in (x, px)]
+        if ctx.tier == 'thorough':
+            red = [None, (0, 0), (1, 1), (0, 2), (1, 3)]
+            inner = [lang.N(o, px, ivl=iv) for o in ('once', 'historically') for iv in red]
+            inner += [lang.N('since', px, py, ivl=iv) for iv in red] + [lang.N(o, px) for o in plain]
+            for iv in red:
+                forms += [lang.N(o, g, ivl=iv) for o in ('once', 'historically') for g in inner]
+                forms += [lang.N('since', g, py, ivl=iv) for g in inner] + [lang.N('since', py, g, ivl=iv) for g in inner]
+            forms += [lang.N(o, g) for o in plain for g in inner]
+        forms = [f for i, f in enumerate(forms) if i % ctx.nshards == ctx.shard]
+        done = 0
+        for f in forms:
+            if ctx.out_of_time():
+                ctx.notes.append('operator x interval enumeration stopped by the wall-clock budget after %d' % done)
+                break
+            for n in (1, 2, 3, 5, 8):
+                self.check(ctx, {'formula': f, 'data': lang.gen_trace(rng, lang.variables(f), n), 'online_kind': 'dt'})
+            done += 1
+        ctx.count('enumerated-operator-interval-formulas', done)
+
+
 PROP = C02()
